@@ -28,7 +28,7 @@ COMMON_ASSUME = [
     "64-bit target; Vec growth never exhausts memory; stack overflow of the recursive functions is not modelled",
     "public fields Bdd.nodes / Adf.ac / Adf.bdd are not mutated behind the API; callers of the public Bdd::node respect its ordering precondition (all in-crate callers are verified to)",
 ]
-BDD_QUICK = [("bdd", "default")]
+BDD_QUICK = [("bdd", "default"), ("bdd", "c_n")]
 BDD_PROBES = [("bdd", "default")]
 
 PROPS = {
@@ -62,7 +62,7 @@ PROPS = {
         explanation="From<Vec<BddNode>> on a well-formed duplicate-free node list rebuilds a store with r.nodes@ == input (identical numbering) and wf(); fix_import turns the state serde leaves (wf_imported) into the full wf() without touching nodes or the unique table; answers then equal the original's because every answer is a function of den (C07/C11)",
         not_decided=["'the CLI never overwrites an existing export file' is a file-system effect in bin/src/main.rs - no contract within reach", "Adf::from((ordering,bdd,ac)) field-wise construction is covered with the adf unit"]),
     "C19": dict(
-        units=dict(quick=BDD_QUICK, thorough=[("bdd", c) for c in ALL12 if c.endswith("f")]), probes=dict(quick=BDD_PROBES, thorough=BDD_PROBES), depends=[],
+        units=dict(quick=[("bdd", "default"), ("bdd", "c_nf")], thorough=[("bdd", c) for c in ALL12 if c.endswith("f")]), probes=dict(quick=BDD_PROBES, thorough=BDD_PROBES), depends=[],
         assumptions=COMMON_ASSUME + ["crossbeam_channel is modelled by an opaque stub with a prophetic message sequence msg(chan,k): FIFO, lossless, duplication-free for one Sender and one Receiver on a fresh channel; send/try_recv are atomic (speclib/stubs_crossbeam.rs) - ASSUMED, no thread interleaving is explored", "set_sender/set_receiver on a non-fresh store (the documented 'Attention' cases) are outside the precondition"],
         explanation="producer invariant (part of wf(), preserved by node and hence by every operation): nodes[k+2] == msg(c,k) for all k < sent and len == sent+2; receiver invariant (recv loop): nodes[k+2] == msg(c,k) for k < recvd, len == recvd+2, every received node forwarded in order when a sender is present (relay_inv); recv returns true iff term < final len; both invariants are local to one party and mention only msg, so every interleaving of atomic channel operations preserves both; lemma_mirror / lemma_relay compose them"),
     "C20": dict(
